@@ -345,7 +345,7 @@ fn run(input: RunInput) -> ScenFuture {
 }
 
 fn check_id(w: &World, got: Option<PeerId>, want: PeerId, class: &str, ctx: &str) {
-    if got != Some(want) {
+    if got.map(|g| g.0) != Some(want.0) {
         w.violate(class, got.map(|g| w.pname(&g)).unwrap_or_else(|| "none".into()), format!("{ctx}: attributed {:?}, the endpoint holds only {}", got.map(|g| w.pname(&g)), w.pname(&want)));
     }
 }
